@@ -364,7 +364,9 @@ class Gen:
             if isinstance(x, list):
                 return any(mentions(y) for y in x)
             return False
-        return Num(0) if mentions(e) else e
+        # inserting members store a copy of an argument that is (or holds) the receiver (fix C10-2), so
+        # self-insertion is generated on purpose now and then
+        return e if (not mentions(e) or self.rng.random() < 0.5) else Num(0)
 
     def s_call(self, d):
         f = self.rng.choice(sorted(self.funcs))
